@@ -128,6 +128,16 @@ structure State where
   expectLocal : List (Nat × Nat) := []                  -- (client, id): emitted and framed while disconnected
   sframeOps : List Nat := []                            -- op indices of server frames (newest first)
   lastConnect : List (Nat × Nat) := []                  -- client ↦ op index of its latest connect
+  -- lock step with `Model/Events.lean`
+  srvEv : Evt.SrvEv := {}
+  evLastRunning : Bool := false
+  evEmitted : List Evt.Emitted := []
+  evRefs : List (Nat × List Nat) := []                   -- event id ↦ referenced entities (bits)
+  evInbox : List ((Nat × Nat) × List (Nat × Nat)) := []  -- (client, channel) ↦ arrived (stamp, id)
+  evQueue : List ((Nat × Nat) × Evt.Queue) := []
+  cbufs : List (String × List (Evt.CBuf × List Nat)) := []  -- app ↦ candidate buffers, local ids due
+  cLastConn : List (Nat × Bool) := []
+  evtOff : List String := []
   elapsed : Nat := 0
   /-- the server was (re)started and has not run a frame yet: `ServerTick` counts as changed -/
   freshStart : Bool := false
@@ -1039,6 +1049,193 @@ def evtStep (st : State) (inp : List String) (obs : List String) : State × List
             | none => []
     (st, vSent ++ vLog ++ vFinal)
 
+/-! ### remote events: lock step with `Model/Events.lean` -/
+
+def evKindIdx (k : String) : Nat :=
+  if k = "ord" then 0 else if k = "map" then 1 else if k = "ind" then 2 else if k = "trig" then 3 else 4
+
+def evKindName (k : Nat) : String :=
+  match k with | 0 => "ord" | 1 => "map" | 2 => "ind" | 3 => "trig" | _ => "unrel"
+
+/-- (stamp, id, referenced entity bits) of a server event message -/
+def decodeEventFull (st : State) (ch : Nat) (bs : List Nat) : Option (Option Nat × Nat × List Nat) :=
+  if ch < evChanBase st then none else
+  let idOf (r : List Nat) : Option Nat := match decodeU32 r with | .ok (v, _) => some v | _ => none
+  match ch - evChanBase st with
+  | 2 => (idOf bs).map fun i => (none, i, [])
+  | 0 | 4 => match decodeU32 bs with
+    | .ok (stamp, r) => (idOf r).map fun i => (some stamp, i, [])
+    | _ => none
+  | 1 => match decodeU32 bs with
+    | .ok (stamp, r) => (match decodeU32 r with
+      | .ok (i, r2) => (match decodeU64 r2 with
+        | .ok (bits, _) => some (some stamp, i, [bits])
+        | _ => none)
+      | _ => none)
+    | _ => none
+  | 3 => match decodeU32 bs with
+    | .ok (stamp, r) => (match decodeU64 r with
+      | .ok (n, r2) => (match decodeN decodeEntity n r2 with
+        | .ok (es, r3) => (idOf r3).map fun i => (some stamp, i, es.map Wire.Ent.bits)
+        | _ => none)
+      | _ => none)
+    | _ => none
+  | _ => none
+
+def showOuts (l : List (Option Nat × Nat)) : String :=
+  toString (l.map fun (s, i) => s!"{i}@{match s with | some t => toString t | none => "-"}")
+
+def dedupStates (l : List (Evt.CBuf × List Nat)) : List (Evt.CBuf × List Nat) :=
+  l.foldl (fun acc x => if acc.contains x then acc else acc ++ [x]) []
+
+/-- advance the candidate buffers of one app by one frame and compare with what was observed -/
+def cbufFrame (st : State) (app : String) (jc : Bool) (status : Evt.Status) (obsWire obsLocal : List Nat) :
+    State × List Verdict :=
+  if st.evtOff.contains app then (st, []) else
+  let cands := (st.cbufs.lookup app).getD [({}, [])]
+  let next := cands.flatMap fun (q, due) =>
+    if due ≠ obsLocal then [] else
+    [false, true].filterMap fun aged =>
+      let r := q.frame aged jc status
+      if r.2.1.map (fun (x : Nat × Nat) => x.2) = obsWire then some (r.1, r.2.2.map (fun (x : Nat × Nat) => x.2)) else none
+  if next.isEmpty then
+    let ex := match cands.head? with
+      | some (q, due) => let r := q.frame false jc status
+        s!"model (no ageing): wire {r.2.1.map (fun (x : Nat × Nat) => x.2)}, local ids due from the previous frame {due}"
+      | none => "-"
+    ({ st with evtOff := app :: st.evtOff },
+     [Verdict.mismatch "EVT" s!"app {app}: client events on the wire {obsWire}, observed locally {obsLocal}; no ageing choice of the model matches; {ex}"])
+  else ({ st with cbufs := (app, dedupStates next) :: st.cbufs.filter (·.1 ≠ app) }, [])
+
+def evtLock (st : State) (inp : List String) (obs : List String) : State × List Verdict :=
+  if !st.events || st.modelOff then (st, []) else
+  let ok : Bool := match obs.head? with
+    | some o => (toks o).head? == some "ok"
+    | none => false
+  let evlogIds (who : String) (kind : String) (needFrom : Option String) : List Nat :=
+    obs.flatMap fun o => match toks o with
+      | ["evlog", w, entries] =>
+        if w ≠ who || entries = "-" then [] else
+        (entries.splitOn ",").filterMap fun e => match parseEvEntry e with
+          | some (k, id, _, frm, _) => if k = kind && (needFrom.isNone || frm = needFrom) then some id else none
+          | none => none
+      | _ => []
+  match inp with
+  | "sev" :: kind :: id :: mode :: rest =>
+    if !ok then (st, []) else
+    match id.toNat? with
+    | some id =>
+      let em : Evt.Emitted := { ev := { id := id, chan := evChanBase st + evKindIdx kind, mode := modeOf mode },
+                                independent := kind = "ind" }
+      ({ st with evEmitted := st.evEmitted ++ [em] }, [])
+    | none => (st, [])
+  | "cev" :: who :: "ord" :: id :: _ =>
+    if !ok || st.evtOff.contains who then (st, []) else
+    match id.toNat? with
+    | some id =>
+      let cands := (st.cbufs.lookup who).getD [({}, [])]
+      ({ st with cbufs := (who, cands.map fun (q, d) => (q.emit id, d)) :: st.cbufs.filter (·.1 ≠ who) }, [])
+    | none => (st, [])
+  | ["connect", c] =>
+    if !ok then (st, []) else
+    match c.toNat? with
+    | some c => ({ st with srvEv := st.srvEv.exclude c,
+                           evInbox := st.evInbox.filter (·.1.1 ≠ c), evQueue := st.evQueue.filter (·.1.1 ≠ c) }, [])
+    | none => (st, [])
+  | ["disconnect", c] =>
+    if !ok then (st, []) else
+    match c.toNat? with
+    | some c => ({ st with evInbox := st.evInbox.filter (·.1.1 ≠ c) }, [])
+    | none => (st, [])
+  | ["stop"] => if ok then ({ st with evInbox := [] }, []) else (st, [])
+  | ["deliver", c, "s2c", ch, _] =>
+    match c.toNat?, ch.toNat?, obs.head?.map toks with
+    | some c, some ch, some ("ok" :: ts) =>
+      if ch < evChanBase st then (st, []) else
+      match (kvHex ts "hex").bind (decodeEventFull st ch) with
+      | some (stamp, id, refs) =>
+        let cur := (st.evInbox.lookup (c, ch)).getD []
+        ({ st with evInbox := ((c, ch), cur ++ [(stamp.getD 0, id)]) :: st.evInbox.filter (·.1 ≠ (c, ch)),
+                   evRefs := (id, refs) :: st.evRefs.filter (·.1 ≠ id) }, [])
+      | none => (st, [Verdict.mismatch "EVT" s!"event message on channel {ch} for client {c} does not decode"])
+    | _, _, _ => (st, [])
+  | "sframe" :: _ =>
+    match obs.getLast?.map toks with
+    | some ("srv" :: ts) =>
+      let running := kv ts "run" == some "1"
+      let flushed := kv ts "repl" == some "1"
+      let justStopped := st.evLastRunning && !running
+      let s0 := if justStopped then st.srvEv.clear else st.srvEv
+      let peers : List Evt.Peer := st.srv.clients.map fun (c, cl) =>
+        { id := c, authorized := cl.authorized, updateTick := cl.updateTick }
+      let (s1, outs, _) := s0.frame running flushed true st.evEmitted peers
+      -- what the implementation handed to the transport on event channels
+      let actual : List ((Nat × Nat) × (Option Nat × Nat)) := obs.filterMap fun o =>
+        let t := toks o
+        if t.head? ≠ some "sent" then none else
+        match kvNat t "c", kvNat t "ch", kvHex t "hex" with
+        | some c, some ch, some bs =>
+          if ch < evChanBase st then none else
+          (match decodeEventFull st ch bs with
+           | some (stamp, id, _) => some ((c, ch), (stamp, id))
+           | none => some ((c, ch), (none, 4000000000)))
+        | _, _, _ => none
+      let expected : List ((Nat × Nat) × (Option Nat × Nat)) := outs.map fun o => ((o.client, o.chan), (o.stamp, o.id))
+      let keys := (actual.map (·.1) ++ expected.map (·.1)).eraseDups
+      let vs := keys.filterMap fun k =>
+        let a := (actual.filter (·.1 = k)).map (·.2)
+        let e := (expected.filter (·.1 = k)).map (·.2)
+        if a = e then none else
+          some (Verdict.mismatch "EVT" s!"server frame, client {k.1} channel {k.2}: the implementation sends events (id@stamp) {showOuts a}, the model {showOuts e}")
+      let st := { st with srvEv := s1, evEmitted := [], evLastRunning := running }
+      -- the server app's own client-event buffer (singleplayer / listen server path)
+      let (st, v4) := if st.dedicated then (st, []) else
+        cbufFrame st "s" false .disconnected [] (evlogIds "s" "cord" (some "S"))
+      (st, vs ++ v4)
+    | _ => (st, [])
+  | ["cframe", c] =>
+    match c.toNat?, obs.getLast?.map toks with
+    | some c, some ("cli" :: ts) =>
+      let conn := kv ts "conn" == some "1"
+      let upd := (kvNat ts "upd").getD 0
+      let who := s!"c{c}"
+      -- L3: the queue of server events
+      let (st, v3) : State × List Verdict :=
+        if !conn || st.cliOff.contains c then (st, []) else
+        (List.range 5).foldl (fun (acc : State × List Verdict) k =>
+          let st := acc.1
+          let ch := evChanBase st + k
+          let q := (st.evQueue.lookup (c, ch)).getD {}
+          let inc := (st.evInbox.lookup (c, ch)).getD []
+          let (del, q') := Evt.receive upd q inc
+          let cl := getCli st c
+          let resolvable (id : Nat) : Bool :=
+            let refs := ((st.evRefs.lookup id).getD []).map fun b =>
+              ((st.bits.lookup b).bind fun e => Srv.aget cl.s2c e)
+            refs.all (·.isSome)
+          let exp := (del.filter fun x => resolvable x.2).map (·.2)
+          let act := evlogIds who (evKindName k) none
+          let st := { st with evQueue := ((c, ch), q') :: st.evQueue.filter (·.1 ≠ (c, ch)),
+                              evInbox := st.evInbox.filter (·.1 ≠ (c, ch)) }
+          if exp = act then (st, acc.2) else
+            (st, acc.2 ++ [Verdict.mismatch "EVT" s!"client {c} frame at update tick {upd}: {evKindName k} events handed to the game {act}, the model's queue hands over {exp} (queued before {q.items}, arrived {inc})"]))
+          (st, [])
+      -- L4: the client's own events towards the server
+      let lastConn := (st.cLastConn.lookup c).getD false
+      let jc := conn && !lastConn
+      let base := if st.authCheck then 2 else 1
+      let obsWire := obs.filterMap fun o =>
+        let t := toks o
+        if t.head? ≠ some "csent" then none else
+        match kvNat t "ch", kvHex t "hex" with
+        | some ch, some bs => if ch ≠ base then none else (match decodeU32 bs with | .ok (i, _) => some i | _ => none)
+        | _, _ => none
+      let st := { st with cLastConn := (c, conn) :: st.cLastConn.filter (·.1 ≠ c) }
+      let (st, v4) := cbufFrame st (toString c) jc (if conn then .connected else .disconnected) obsWire (evlogIds who "cord" (some "S"))
+      (st, v3 ++ v4)
+    | _, _ => (st, [])
+  | _ => (st, [])
+
 def bump (st : State) (k : String) : State := { st with stats := k :: st.stats }
 
 /-- Handle one record of a sys case. -/
@@ -1243,8 +1440,9 @@ def handle (st : State) (inp : List String) (obs : List String) : State × List 
   let (st, v1) := modelStep st inp obs
   let (st, v3) := cliStep st inp obs
   let (st, v4) := evtStep st inp obs
+  let (st, v5) := evtLock st inp obs
   let (st, v2) := handleOracles st inp obs
-  (st, v1 ++ v3 ++ v4 ++ v2)
+  (st, v1 ++ v3 ++ v4 ++ v5 ++ v2)
 
 def init (hdr : List String) : State :=
   { whitelist := kv hdr "policy" = some "white", track := kv hdr "track" = some "1",
